@@ -75,13 +75,13 @@ def main():
             ok = True
             for mod in mods:
                 rs = sh("go test -vet=off -count=1 ./... 2>&1", cwd=os.path.join(wt, mod), timeout=3000)
-                failed = sorted(set(re.findall(r"^FAIL\s+(\S+)", rs.stdout, re.M)))
+                failed = sorted(set(re.findall(r"^FAIL[ \t]+(\S+)", rs.stdout, re.M)))
                 if failed:
                     # the repository has a few timing-dependent packages: a package only counts as
                     # failing with the change when it fails twice in a row on its own
                     verdict.setdefault("suite_first_run_failures", []).extend(failed)
                     rs2 = sh("go test -vet=off -count=1 %s 2>&1" % " ".join(failed), cwd=os.path.join(wt, mod), timeout=3000)
-                    failed2 = sorted(set(re.findall(r"^FAIL\s+(\S+)", rs2.stdout, re.M)))
+                    failed2 = sorted(set(re.findall(r"^FAIL[ \t]+(\S+)", rs2.stdout, re.M)))
                     if failed2:
                         ok = False
                         verdict.setdefault("suite_failures", []).extend(failed2)
